@@ -127,6 +127,7 @@ type obs struct {
 	statGot map[string]bool
 	failed  error // transport-level failure of a read
 	status  int
+	ctx     context.Context
 }
 
 func (o *obs) bad(class, format string, args ...any) {
@@ -200,8 +201,8 @@ func absentRef(i int) blob.Ref {
 }
 
 // doRaw sends one raw request and reads the whole response.
-func (s *c18) doRaw(method, u string, hdr map[string]string, body io.Reader, clen int64) (*http.Response, []byte, error, error) {
-	req, err := http.NewRequest(method, u, body)
+func (s *c18) doRaw(ctx context.Context, method, u string, hdr map[string]string, body io.Reader, clen int64) (*http.Response, []byte, error, error) {
+	req, err := http.NewRequestWithContext(ctx, method, u, body)
 	if err != nil {
 		return nil, nil, nil, err
 	}
@@ -253,7 +254,7 @@ func (s *c18) enumRaw(o *obs, root, after string, limit, wait int, sendAfter boo
 	if len(q) > 0 {
 		u += "?" + q.Encode()
 	}
-	resp, data, rerr, err := s.doRaw("GET", u, nil, nil, 0)
+	resp, data, rerr, err := s.doRaw(o.ctx, "GET", u, nil, nil, 0)
 	if err != nil {
 		return nil, err
 	}
@@ -302,7 +303,7 @@ func firstN(s string, n int) string {
 }
 
 // exec performs one operation (inside a scheduled task).
-func (s *c18) exec(op Op) *obs {
+func (s *c18) exec(op Op, task string) *obs {
 	o := &obs{op: op}
 	if op.Delay > 0 {
 		time.Sleep(time.Duration(op.Delay) * time.Second)
@@ -314,7 +315,8 @@ func (s *c18) exec(op Op) *obs {
 		}
 		o.t1 = s.now()
 	}()
-	ctx := context.Background()
+	ctx := WithLabel(context.Background(), task)
+	o.ctx = ctx
 	root := baseURL + s.rootPath(op.Root)
 	switch op.K {
 	case "up":
@@ -353,7 +355,7 @@ func (s *c18) exec(op Op) *obs {
 			pw.Write(b.Data)
 		}
 		mw.Close()
-		resp, data, rerr, err := s.doRaw("POST", root+"/camli/upload", map[string]string{"Content-Type": mw.FormDataContentType()}, bytes.NewReader(body.Bytes()), int64(body.Len()))
+		resp, data, rerr, err := s.doRaw(ctx, "POST", root+"/camli/upload", map[string]string{"Content-Type": mw.FormDataContentType()}, bytes.NewReader(body.Bytes()), int64(body.Len()))
 		var got map[string]uint32
 		var ferr error
 		switch {
@@ -420,7 +422,7 @@ func (s *c18) exec(op Op) *obs {
 		if len(b.Data) == 0 && op.Via != "chunked" {
 			body = nil
 		}
-		resp, data, _, err := s.doRaw("PUT", root+"/camli/"+b.Ref.String(), nil, body, clen)
+		resp, data, _, err := s.doRaw(ctx, "PUT", root+"/camli/"+b.Ref.String(), nil, body, clen)
 		var res sim.Result
 		switch {
 		case err != nil:
@@ -465,10 +467,10 @@ func (s *c18) exec(op Op) *obs {
 		var data []byte
 		var rerr, err error
 		if op.Via == "GET" {
-			resp, data, rerr, err = s.doRaw("GET", root+"/camli/stat?"+form.Encode(), nil, nil, 0)
+			resp, data, rerr, err = s.doRaw(ctx, "GET", root+"/camli/stat?"+form.Encode(), nil, nil, 0)
 		} else {
 			enc := form.Encode()
-			resp, data, rerr, err = s.doRaw("POST", root+"/camli/stat", map[string]string{"Content-Type": "application/x-www-form-urlencoded"}, strings.NewReader(enc), int64(len(enc)))
+			resp, data, rerr, err = s.doRaw(ctx, "POST", root+"/camli/stat", map[string]string{"Content-Type": "application/x-www-form-urlencoded"}, strings.NewReader(enc), int64(len(enc)))
 		}
 		switch {
 		case len(refs) == 1000:
@@ -698,7 +700,7 @@ func (s *c18) execGet(o *obs, root string) {
 	if op.Range != "" {
 		hdr = map[string]string{"Range": op.Range}
 	}
-	resp, data, rerr, err := s.doRaw(method, root+"/camli/"+b.Ref.String(), hdr, nil, 0)
+	resp, data, rerr, err := s.doRaw(o.ctx, method, root+"/camli/"+b.Ref.String(), hdr, nil, 0)
 	var res sim.Result
 	switch {
 	case err != nil:
@@ -897,7 +899,8 @@ func (s *c18) runGroup(ops []Op, i, j int) bool {
 	res := make([]*obs, len(group))
 	for k := range group {
 		k := k
-		s.rc.Sched.Go(fmt.Sprintf("c%d", k), func() { res[k] = s.exec(group[k]) })
+		task := fmt.Sprintf("c%d", k)
+		s.rc.Sched.Go(task, func() { res[k] = s.exec(group[k], task) })
 	}
 	if err := s.rc.Sched.Run(); err != nil {
 		var stuck []string
@@ -1297,7 +1300,7 @@ func execC18(rc *harness.RunCtx, p *harness.Plan) *harness.Outcome {
 				return
 			}
 		}
-		o := &obs{}
+		o := &obs{ctx: context.Background()}
 		after := ""
 		for n := 0; n < 100; n++ {
 			pg, err := s.enumRaw(o, "bs", after, 1000, 0, false)
@@ -1312,7 +1315,7 @@ func execC18(rc *harness.RunCtx, p *harness.Plan) *harness.Outcome {
 			after = pg.cont
 		}
 		for _, sb := range initial {
-			_, data, rerr, err := s.doRaw("GET", baseURL+"/bs/camli/"+sb.Ref.String(), nil, nil, 0)
+			_, data, rerr, err := s.doRaw(o.ctx, "GET", baseURL+"/bs/camli/"+sb.Ref.String(), nil, nil, 0)
 			if err != nil || rerr != nil {
 				initErr = fmt.Errorf("initial fetch of %v: %v %v", sb.Ref, err, rerr)
 				return
